@@ -368,7 +368,8 @@ def twin_algorithms(ctx, rng, cls, fields, tag):
     P1, _ = spec(cls)
     s = new_setup(D)
     base = cls.split("+")[0]
-    if base in ("SSIcov", "SSIdat", "SSIcov_MS", "SSIdat_MS") and "+" not in cls and rng.random() < 0.4:
+    variant = getattr(twin_algorithms, "variant", "equal")
+    if base in ("SSIcov", "SSIdat", "SSIcov_MS", "SSIdat_MS") and "+" not in cls and variant == "cross":
         # a data-driven and a covariance-driven analysis configured by ONE parameter object that leaves the method to each class
         other = base.replace("cov", "dat") if "cov" in base else base.replace("dat", "cov")
         Pn = {k: copy.deepcopy(v) for k, v in P1.items() if k != "method"}
@@ -385,7 +386,7 @@ def twin_algorithms(ctx, rng, cls, fields, tag):
             _cmp(ctx, a_, fresh(c, Pn, D, m), fields, "twin_algorithms", cls,
                  f"{order[0]} and {order[1]} sharing one run-parameter object (method left to the class): {c}'s result differs from a lone {c}'s")
         return
-    if rng.random() < 0.35:
+    if variant == "sibling":
         # two algorithms of one class in one setup that differ in a single parameter (anything a shared intermediate could be keyed without)
         _, P2_ = spec(cls)
         k_ = str(rng.choice([k for k in P1 if P1[k] != P2_.get(k, P1[k]) and k not in ("ordmax", "br")] or [list(P1)[0]]))
@@ -489,7 +490,8 @@ def cases(n, classes):
     """n scenario cases, cycling scenarios x classes deterministically"""
     out = []
     for k in range(n):
-        out.append({"cls": "plumbing", "scenario": SCENARIOS[k % len(SCENARIOS)], "alg": classes[(k // len(SCENARIOS)) % len(classes)], "k": 100000 + k})
+        out.append({"cls": "plumbing", "scenario": SCENARIOS[k % len(SCENARIOS)], "alg": classes[(k // len(SCENARIOS)) % len(classes)], "k": 100000 + k,
+                    "round": k // (len(SCENARIOS) * len(classes))})
     return out
 
 
@@ -499,7 +501,15 @@ def run_case(ctx, case, rng, fields=None, pid=""):
     tag = f"plumbing:{scen}"
     f = fields.get(cls) if isinstance(fields, dict) else fields
     try:
-        FUNCS[scen](ctx, rng, cls, f, tag)
+        if scen == "twin_algorithms":
+            # every kind of twin in every case (equal parameters / one parameter apart / for SSI a data- and a covariance-driven analysis
+            # configured by one parameter object): which one a case exercises is not left to chance
+            for v_ in ("equal", "sibling") + (("cross",) if cls.split("+")[0] in ("SSIcov", "SSIdat", "SSIcov_MS", "SSIdat_MS") and "+" not in cls else ()):
+                twin_algorithms.variant = v_
+                FUNCS[scen](ctx, rng, cls, f, tag)
+                _close_all()
+        else:
+            FUNCS[scen](ctx, rng, cls, f, tag)
     except np.linalg.LinAlgError:
         ctx.not_judged("plumbing: workload gives a singular matrix in the library")
         return
